@@ -101,6 +101,37 @@ Theorem C01_grad_correct_selfCoordNum : forall co e r0 n m g1 (s : SYS),
 Proof. exact cvc_grad_correct_selfCoordNum. Qed.
 Print Assumptions C01_grad_correct_selfCoordNum.
 
+Theorem C01_grad_correct_coordNum_group2CenterOnly : forall co e r0 n m g1 g2 (s : SYS),
+  grp_ok0 s g1 -> grp_ok s g2 -> r0 <> 0 -> (1 <= n)%nat -> (1 <= m)%nat ->
+  pairs_ok r0 (gd_pos (gdata_of Rops s g1)) [com_of s g2] ->
+  cvc_grad_correct None (mkCvc co e (KCoordNum r0 n m true) [g1; g2]) s.
+Proof. exact cvc_grad_correct_coordNum_g2c. Qed.
+Print Assumptions C01_grad_correct_coordNum_group2CenterOnly.
+
+Theorem C01_grad_correct_dipoleMagnitude : forall cell co e ids c fit (s : SYS),
+  grp_ok s (GAtoms ids c fit true) ->
+  v3norm2 Rops (dipole Rops (gdata_of Rops s (GAtoms ids c fit true)) (com_of s (GAtoms ids c fit true))) <> 0 ->   (* non-zero dipole *)
+  cvc_grad_correct cell (mkCvc co e KDipoleMagnitude [GAtoms ids c fit true]) s.
+Proof. exact cvc_grad_correct_dipoleMagnitude. Qed.
+Print Assumptions C01_grad_correct_dipoleMagnitude.
+
+Theorem C01_grad_correct_dipoleAngle : forall cell pbc co e ids c fit g2 g3 (s : SYS),
+  grp_ok s (GAtoms ids c fit true) -> grp_ok s g2 -> grp_ok s g3 -> plain pbc cell ->
+  let g1 := GAtoms ids c fit true in
+  let r21 := dipole Rops (gdata_of Rops s g1) (com_of s g1) in
+  let r23 := v3sub Rops (com_of s g3) (com_of s g2) in
+  v3norm2 Rops r21 <> 0 -> v3norm2 Rops r23 <> 0 -> -1 < cosang r21 r23 < 1 ->
+  cvc_grad_correct cell (mkCvc co e (KDipoleAngle pbc) [GAtoms ids c fit true; g2; g3]) s.
+Proof. exact cvc_grad_correct_dipoleAngle. Qed.
+Print Assumptions C01_grad_correct_dipoleAngle.
+
+Theorem C01_grad_correct_distanceInv : forall cell pbc co e ex g1 g2 (s : SYS),
+  grp_ok0 s g1 -> grp_ok0 s g2 -> plain pbc cell -> (1 <= ex)%nat ->
+  inv_ok (gd_pos (gdata_of Rops s g1)) (gd_pos (gdata_of Rops s g2)) ->       (* non-empty groups, no two atoms coincide *)
+  cvc_grad_correct cell (mkCvc co e (KDistanceInv pbc ex) [g1; g2]) s.
+Proof. exact cvc_grad_correct_distanceInv. Qed.
+Print Assumptions C01_grad_correct_distanceInv.
+
 Theorem C01_grad_correct_inertia : forall cell co e ids (s : SYS),
   ids_ok s ids -> ids <> [] ->
   cvc_grad_correct cell (mkCvc co e KInertia [self_centred ids]) s.
@@ -118,6 +149,10 @@ Print Assumptions C01_grad_correct_gyration.
 Theorem C01_bias_force_correct_harmonic : forall k cs ws x0, terms_ok fst cs ws -> bias_force_correct (BHarmonic k cs) ws x0.
 Proof. exact bias_force_correct_harmonic. Qed.
 Print Assumptions C01_bias_force_correct_harmonic.
+(* ... and on a periodic variable (restraint metric = shortest image of value - centre) away from the half-period cut *)
+Theorem C01_bias_force_correct_harmonic_periodic : forall k cs ws x0, terms_ok_h cs ws x0 -> bias_force_correct (BHarmonic k cs) ws x0.
+Proof. exact bias_force_correct_harmonic_gen. Qed.
+Print Assumptions C01_bias_force_correct_harmonic_periodic.
 Theorem C01_bias_force_correct_linear : forall k cs ws x0, terms_ok fst cs ws -> bias_force_correct (BLinear k cs) ws x0.
 Proof. exact bias_force_correct_linear. Qed.
 Print Assumptions C01_bias_force_correct_linear.
@@ -126,6 +161,17 @@ Theorem C01_bias_force_correct_walls : forall k lk uk hl hu l ws x0, terms_ok fs
   bias_force_correct (BWalls k lk uk hl hu l) ws x0.
 Proof. exact bias_force_correct_walls. Qed.
 Print Assumptions C01_bias_force_correct_walls.
+
+(* metadynamics without grids at a fixed set of hills (sum of Gaussians truncated beyond exponent 23): no hill exactly at
+   its truncation radius *)
+Theorem C01_bias_force_correct_meta : forall hs ws x0, (forall h, In h hs -> hill_ok ws x0 h) -> bias_force_correct (BMeta hs) ws x0.
+Proof. exact bias_force_correct_meta. Qed.
+Print Assumptions C01_bias_force_correct_meta.
+(* ABMD at a fixed reference: the variable is not exactly at the reference *)
+Theorem C01_bias_force_correct_abmd : forall k dec v ref ws x0, (v < length ws)%nat -> abmd_diff Rops dec (xat Rops x0 v) ref <> 0 ->
+  bias_force_correct (BAbmd k dec v ref) ws x0.
+Proof. exact bias_force_correct_abmd. Qed.
+Print Assumptions C01_bias_force_correct_abmd.
 
 (* ---- closed statement: guards only --------------------------------------------------------------------------- *)
 Theorem C01_forces_are_minus_gradient : forall (cf : config) (s : SYS),
@@ -156,3 +202,8 @@ Proof. exact ex_guards. Qed.
 (* the periodic-cell case of image_ok is inhabited *)
 Example C01_example_cell : image_ok true (Some (8, 8, 8)) (0, 0, 0) (5, 1, 1) /\ ~ plain true (Some (8, 8, 8)).
 Proof. exact ex_image_cell. Qed.
+Example C01_example_hill : hill_ok [mkCvar 1 false 0 []] [3] (2, [(0%nat, (1, 2))]) /\ abmd_diff Rops false 3 5 <> 0.
+Proof. exact ex_hill. Qed.
+(* the periodic disjunct of the harmonic guard is inhabited: value 10, centre 350, period 360 (image +20) *)
+Example C01_example_periodic : var_ok_h (mkVar 1 true 360 0) 10 350.
+Proof. exact ex_periodic. Qed.
